@@ -283,4 +283,24 @@ PROPS = {
                  thorough=dict(checks=8000, shards=16, budget_s=3300, shrink="3m")),
         ],
     ),
+    "C05": dict(
+        level="exploration",
+        needs_receptor=True,
+        text="Exploration by generated search: producer programmes (in-process units and real command units run by the receptor runner) with generated chunking/timing, result requests at "
+             "generated moments and start offsets in both request forms; every received stream is compared byte for byte with the known output from that offset, must end, and must not end "
+             "early. Remote variant: three in-process nodes, generated link cuts and relay restarts while status and output are mirrored; the submitter's stored output is polled and must "
+             "always be a prefix of the remote output and become equal to it.",
+        note="Trusted: the output functions (byte i is a fixed function of i), the fault-injecting links. Results of cancelled units are not constrained. The remote control service itself is not restarted "
+             "(re-listening on the fixed service name 'control' right after a close is C17 territory).",
+        technique="property-based testing (rapid): generated producer schedules x request offsets/timings with an exact-suffix oracle; fault injection on the mirroring path with a prefix invariant",
+        assumptions=["streams must end within producer duration + 45 s (+ 60 s and fault durations for remote units)"],
+        parts=[
+            part("local", "workprops", "TestC05Local", "C05",
+                 quick=dict(checks=64, shards=8, budget_s=500),
+                 thorough=dict(checks=1600, shards=16, budget_s=3300, shrink="3m")),
+            part("remote", "workprops", "TestC05Remote", "C05",
+                 quick=dict(checks=16, shards=8, budget_s=600),
+                 thorough=dict(checks=240, shards=16, budget_s=3400, shrink="3m")),
+        ],
+    ),
 }
